@@ -101,6 +101,9 @@ class C14(Prop):
             for l in lines:
                 out.append(l)
                 if l.split()[0] in ('add', 'addb', 'del', 'setindex'):
+                    out += ['q f indices 0', 'q f getindex']
+                    if l.split()[0] == 'del':
+                        out.append('check c14-nav f')
                     k += 1
                     if k % 3 == 0:
                         out += ['check c14 f %s' % q for q in QUERIES] + ['snap f', 'q f counts', 'q f total', 'q f euler', 'q f simplices 0']
